@@ -223,6 +223,10 @@ def run (args : List String) : IO Unit := do
     | some k => out.putStrLn (describe descCurrent k)
     | none => out.putStrLn "bad-op"
   | ["sim-current"] => stateLoop (← IO.getStdin) out (step descCurrent) World.init
+  | ["sim-mix", ks] =>
+    -- the listed kinds have their current hook, all others the repaired one (a tree with some of the fixes applied)
+    let cur := (ks.splitOn ",").filterMap Kind.ofName
+    stateLoop (← IO.getStdin) out (step fun k => if cur.contains k then descCurrent k else desc k) World.init
   | ["tbl"] => stateLoop (← IO.getStdin) out Kinds.tblStep Kinds.TblWorld.init
   | _ => stateLoop (← IO.getStdin) out (step desc) World.init
 
